@@ -5,8 +5,17 @@ import json, sys, os
 root = os.path.join(os.path.dirname(os.path.abspath(__file__)), '..')
 fp = os.path.join(root, 'rules', 'expect.json')
 e = json.load(open(fp)) if os.path.exists(fp) else {}
+sys.path.insert(0, root)
+import importlib
 for prop in sys.argv[1:]:
     ev = json.load(open(os.path.join(root, 'evidence', prop + '.json')))
-    e.setdefault(prop, {})[ev['tier']] = {r: ((v['PROVED'] + v['REFUTED']) if (v['PROVED'] + v['REFUTED']) < 200 else int((v['PROVED'] + v['REFUTED']) * 0.98)) for r, v in ev['coverage']['per_rule'].items() if v['PROVED'] + v['REFUTED']}
+    mod = importlib.import_module('rules.' + prop.lower())
+    fgroup = getattr(mod, 'FLOOR_GROUP', None)
+    ratio = getattr(mod, 'FLOOR_RATIO', None)
+    dec = {}
+    for r, v in ev['coverage']['per_rule'].items():
+        g = fgroup(r) if fgroup else r
+        dec[g] = dec.get(g, 0) + v['PROVED'] + v['REFUTED']
+    e.setdefault(prop, {})[ev['tier']] = {g: (int(n * ratio) if ratio else (n if n < 200 else int(n * 0.98))) for g, n in dec.items() if n}
     print(prop, ev['tier'], e[prop][ev['tier']])
 json.dump(e, open(fp, 'w'), indent=1, sort_keys=True)
